@@ -272,7 +272,7 @@ func c05Tree(run *ev.Run, j treeJob, k int) {
 	// bits_format renderers on raw leaves (a few per tree)
 	c05BitsFormat(run, s, j, dv, root, data, picked, rng)
 	// raw stdout of the CLI for one tree in eight
-	if k%8 == 0 {
+	if k%8 == 0 || strings.HasPrefix(j.Label, "generated:") {
 		c05RawStdout(run, j, data, root, picked, rng)
 	}
 	if nontrivial {
@@ -292,7 +292,7 @@ func c05BitsFormat(run *ev.Run, s *fqx.Session, j treeJob, dv interp.DecodeValue
 	var raws []pickedValue
 	for _, p := range picked {
 		// raw-bit leaves whose value IS the bits: no symbolic mapping (e.g. RawHex, reversed txid), not synthetic
-		if bb, ok := p.V.V.(*scalar.BitBuf); ok && bb.Sym == nil && !bb.Flags.IsSynthetic() && p.V.Range.Len <= 64*1024*8 {
+		if bb, ok := p.V.V.(*scalar.BitBuf); ok && bb.Sym == nil && !bb.Flags.IsSynthetic() && p.V.Range.Len <= 16*1024*1024 {
 			raws = append(raws, p)
 		}
 	}
@@ -417,8 +417,16 @@ func c05RawStdout(run *ev.Run, j treeJob, data []byte, root *decode.Value, picke
 		base = append(base, "-o", "force=true")
 	}
 	cases = append(cases, rc{append(append([]string{}, base...), "tobytes", "input"), data, "root:tobytes"})
-	for n := 0; n < 3 && len(picked) > 1; n++ {
+	tries := 3
+	generated := strings.HasPrefix(j.Label, "generated:")
+	if generated {
+		tries = len(picked) - 1 // small generated trees: every value
+	}
+	for n := 0; n < tries && len(picked) > 1; n++ {
 		p := picked[1+rng.Intn(len(picked)-1)]
+		if generated {
+			p = picked[1+n]
+		}
 		if isSynthetic(p.V) {
 			continue
 		}
@@ -470,6 +478,32 @@ func c05Main(args []string) {
 			}
 		}
 		jobs = keep
+	}
+	// generated inputs with LARGE NON-BYTE-ALIGNED values (no corpus sample has one): ASN.1 BER BIT STRINGs with
+	// 1..7 unused bits, payload 100 B .. 300 KiB (byte views of such values carry a sub-byte remainder through
+	// every 64 KiB of the copy path)
+	grng := gen.New(run.Seed).Fork(0xC05B17)
+	sizes := []int{100, 5000, 66000, 70000, 140000, 300000}
+	if run.Thorough() {
+		sizes = append(sizes, 65535, 65536, 65537, 131072, 200000, 524288, 1000000)
+	}
+	for i, sz := range sizes {
+		unused := 1 + (i+int(run.Seed))%7
+		payload := grng.Bytes(sz)
+		payload[sz-1] &= 0xff << uint(unused) // DER: unused bits are zero
+		n := sz + 1
+		der := []byte{0x03}
+		switch {
+		case n < 128:
+			der = append(der, byte(n))
+		case n < 1<<16:
+			der = append(der, 0x82, byte(n>>8), byte(n))
+		default:
+			der = append(der, 0x83, byte(n>>16), byte(n>>8), byte(n))
+		}
+		der = append(der, byte(unused))
+		der = append(der, payload...)
+		jobs = append(jobs, treeJob{Label: fmt.Sprintf("generated:asn1-bitstring-%dB-unused%d|asn1_ber|none", sz, unused), Seed: der, Mut: mutation{Kind: "none"}, Format: "asn1_ber"})
 	}
 	isoRun(run, isoSpec{
 		NJobs: len(jobs),
